@@ -101,6 +101,26 @@ def strategy(tier):
     return tdcase.td_cases(cfg, n_data=(5, 10), data_fn=data_fn)
 
 
+def enumerate_cases(tier):
+    """Literals and enums whose values have several classes (each class is tried in turn, every attempt from the datum
+    received), alone / in a list / Optional, against every bait word and atom."""
+    enums = [{"name": "EMix0", "base": "plain", "members": [["M0", False], ["M1", 1]]},
+             {"name": "EMix1", "base": "plain", "members": [["M0", True], ["M1", 5]]},
+             {"name": "EMix2", "base": "plain", "members": [["M0", 0], ["M1", "2"]]}]
+    roots = [{"k": "lit", "values": v} for v in ([False, 1], [True, 0], [True, 5], [0, "2"], [1, "2", False], ["1", 2], [False, "a", 2], [1.5, "1"], [True, "0"])]
+    roots += [{"k": "enum", "i": i} for i in range(len(enums))]
+    data = []
+    for x in BAIT + ["on", "no", "n", "y", "NO", "On", "false", "0.0", "2.7", "5", "2", 2.7, 2.0, 1.5, 0.0, 5, 2, 1, 0, -1, True, False, None, "a"]:
+        if not any(x == y and type(x) is type(y) for y in data):
+            data.append(x)
+    for root in roots:
+        for wrap in ("bare", "list", "opt"):
+            t = root if wrap == "bare" else {"k": "list", "sp": "List", "of": root} if wrap == "list" else {"k": "opt", "of": root}
+            prog = {"future": False, "enums": [dict(e) for e in enums], "newtypes": [], "classes": [], "order": [], "root": t}
+            yield {"prog": prog, "opts": {"additional_properties": False, "fall_back_on_default": False, "aliaser": "id", "coerce": False},
+                   "data": [{"d": ([x] if wrap == "list" else x), "tag": "enumerated"} for x in data]}
+
+
 describe = tdcase.describe
 
 
